@@ -82,9 +82,9 @@ pub type ReceiverFlowState = FlowArc;
 pub type ArcSenderUnsettledMap = UnsettledArc;
 pub type ArcReceiverUnsettledMap = UnsettledArc;
 
-pub enum LinkRelay {
-    Sender { tx: LinkTx, output_handle: (), flow_state: SenderRelayFlowState, unsettled: ArcSenderUnsettledMap, receiver_settle_mode: ReceiverSettleMode },
-    Receiver { tx: LinkTx, output_handle: (), flow_state: ReceiverRelayFlowState, unsettled: ArcReceiverUnsettledMap, receiver_settle_mode: ReceiverSettleMode, more: bool },
+pub enum LinkRelay<H> {
+    Sender { tx: LinkTx, output_handle: H, flow_state: SenderRelayFlowState, unsettled: ArcSenderUnsettledMap, receiver_settle_mode: ReceiverSettleMode },
+    Receiver { tx: LinkTx, output_handle: H, flow_state: ReceiverRelayFlowState, unsettled: ArcReceiverUnsettledMap, receiver_settle_mode: ReceiverSettleMode, more: bool },
 }
 
 pub enum AllocLinkError { SessionStopped, Other }
@@ -101,11 +101,11 @@ impl ErrInto<ReceiverAttachError> for IllegalLinkState { open spec fn conv(self)
 pub struct SessionHandle { pub control: SessCtlTx, pub outgoing: OutTx, pub stop: StopArc }
 impl SessionHandle { pub fn session_stop_reason(&self) -> (r: &StopArc) ensures *r == self.stop { &self.stop } }
 /// the relay the session engine registered under a handle
-pub uninterp spec fn registered(h: OutputHandle) -> LinkRelay;
+pub uninterp spec fn registered(h: OutputHandle) -> LinkRelay<()>;
 pub mod session {
     use super::*;
     #[verifier::external_body]
-    pub fn allocate_link(control: &SessCtlTx, link_name: String, link_relay: LinkRelay, stop: &StopArc) -> (r: Result<OutputHandle, AllocLinkError>)
+    pub fn allocate_link(control: &SessCtlTx, link_name: String, link_relay: LinkRelay<()>, stop: &StopArc) -> (r: Result<OutputHandle, AllocLinkError>)
         ensures r is Ok ==> registered(r->Ok_0) == link_relay,
     { unimplemented!() }
 }
